@@ -7,7 +7,7 @@ CONSTANTS
   Limit = 3
   Window = 4
   MaxRound = 3
-  MaxSnaps = 8
+  MaxSnaps = 7
   MaxEarly = 1
   Late = {}
   MaxPub = 1
